@@ -238,6 +238,7 @@ partial def readVal : Sexp → R Val
   | .list [.atom "func", .atom id] => pure (.func id)
   | .list [.atom "jfunc", .atom id] => pure (.jfunc id)
   | .list [.atom "swriter", .atom id] => pure (.swriter id)
+  | .list [.atom "goval", .atom k] => pure (.opaque ("a Go value of a kind outside the model: " ++ k))
   | .list [.atom "named", .atom k, _] => pure (.opaque ("a named " ++ k ++ " type with a print method"))
   | .list [.atom "opaque", .atom w] => pure (.opaque w)
   | s => fail s!"bad value {s.render.take 60}"
